@@ -202,6 +202,40 @@ def run(ctx):
     else:
         ctx.fail_closed("CODEC", "gearsets::GearSets::from_existing not found")
 
+    # ---- RACECODES: the appearance block stores race, tribe and gender as the client's byte codes; the enums'
+    # discriminants (their binrw repr) and the TryFrom<u8> tables both equal the game's list, value by value
+    from ..table import Table as _Tb, Undecided as _Und
+    from ..wrules import w5_repr as _w5
+
+    CODES = {
+        "race::Gender": {"Male": 0, "Female": 1},
+        "race::Race": {"Hyur": 1, "Elezen": 2, "Lalafell": 3, "Miqote": 4, "Roegadyn": 5, "AuRa": 6, "Hrothgar": 7, "Viera": 8},
+        "race::Tribe": {"Midlander": 1, "Highlander": 2, "Wildwood": 3, "Duskwight": 4, "Plainsfolk": 5, "Dunesfolk": 6, "Seeker": 7, "Keeper": 8, "SeaWolf": 9, "Hellsguard": 10, "Raen": 11, "Xaela": 12, "Hellion": 13, "Lost": 14, "Rava": 15, "Veena": 16},
+    }
+    n_rc = 0
+    for ep, ref_ in CODES.items():
+        _w5(ctx, ep, ref_, rule="RACECODES", repr_ty="u8")
+        tb_ = prog.body(f"<{ep} as std::convert::TryFrom<u8>>::try_from")
+        if not tb_:
+            continue  # the enum is then read through its repr only (judged above)
+        tt_ = _Tb(tb_)
+        if not tt_.is_table:
+            ctx.fail_closed("RACECODES", f"TryFrom<u8> for {ep} is not a loop-free decision table")
+            continue
+        by_val = {v_: k_ for k_, v_ in ref_.items()}
+        for code in range(0, max(by_val) + 2):
+            try:
+                leaf = tt_.lookup({("val", 1): code}).env.local(0)
+            except _Und as e_:
+                ctx.fail_closed("RACECODES", f"{ep}::try_from({code}): {e_}")
+                continue
+            n_rc += 1
+            txt = _show(leaf)
+            want_ = by_val.get(code)
+            got_ok = (want_ is not None and f"{ep}::{want_}" in txt.replace(" ", "") and "Ok" in txt) or (want_ is None and "Err" in txt)
+            ctx.ob("RACECODES", f"{ep.split('::')[-1]}|try_from|{code}", got_ok, f"{ep}::try_from({code}) = {txt[:70]}; the client's code {code} is {want_ or 'not assigned'}", tb_.file, tb_.line, trivial=(code > 2))
+    ctx.floor("RACECODES", "byte codes decided through the TryFrom<u8> tables", n_rc, 20)
+
     # ---- CONST
     for path, want, what in (
         ("gearsets::GEARSET_KEY", 0x73, "obfuscation key"),
